@@ -103,6 +103,10 @@ def __setitem__(self, indx, arg):
     try:
         (masked, size_zero,
          shape_before, shape_after) = self._prep_scalar_index(indx)
+        if (self._shape_ and not (masked or size_zero)
+                         and 1 in shape_before + shape_after):
+            raise IndexError('None in the index of an object with a shape')
+                # the general path below places the new axes where they belong
     except IndexError:
         if self._shape_ == ():
             raise
